@@ -82,11 +82,13 @@ def register_forward_ref(
             #   attr1: 'forward' = Field(gt=1)
             #   attr2: 'forward' = Field(gt=2)
             # we use forward_key (attname) over forward_arg
-            forward_refs.setdefault(
-                f"${forward_key}" if forward_key else annotation.__forward_arg__,
-                # use a $ to differ from forward arg
-                (annotation, constraints),
-            )
+            # use a $ to differ from forward arg
+            key = f"${forward_key}" if forward_key else annotation.__forward_arg__
+            while key in forward_refs and forward_refs[key][0] is not annotation:
+                # another reference object of the same name is pending already (Optional['B'] and List['B']
+                # in one class): every object has to be evaluated, keep both
+                key += "'"
+            forward_refs.setdefault(key, (annotation, constraints))
             # still not evaluated
             return annotation
         # raise TypeError(f'{repr(forward_key)}: Unsupported ForwardRef: {annotation}')
